@@ -9,6 +9,7 @@ from harness import checklib  # noqa: E402
 
 def run(c):
     observer_design.run_design(c, "C13")
+    observer_design.run_replay(c, "C13")
     L = 4 if c.thorough else 3
     seqs = oe.fam_sequential(L)
     fails = oe.fam_failures(6)
